@@ -75,7 +75,7 @@ def spaced(draw, toks, tight=1, loose=4):
 
 COMMENT_BODIES = ['', ' plain comment', ' ::id 1', ' ::snt a b c', ' ::k1 v1 ::k2 v2', ' junk ::k v', ' ::', ' :: v',
                   ' ::k', ' ::tok ( / : ~ " )', ' ::k \u2028x', ' ::k v\x85w', ' ::dup 1 ::dup 2', '::tight', ' ::k  two  spaces  ',
-                  ' ::url http://x/y#z']
+                  ' ::url http://x/y#z', '!shebang ::k v', '#', '# # ::a b']
 
 
 @st.composite
@@ -84,7 +84,8 @@ def comment_lines(draw, max_lines=3):
     return ['#' + pick(draw, COMMENT_BODIES) for _ in range(n)]
 
 
-VOCAB = ['(', ')', '/', ':r', ':', 'a', 'b', '"s"', '~1', '~e.2', ':r-of', '1', '"', '~', '#c', ',', '^', '\\', 'x~y', ':r~1', 'a~1']
+VOCAB = ['(', ')', '/', ':r', ':', 'a', 'b', '"s"', '~1', '~e.2', ':r-of', '1', '"', '~', '#c', ',', '^', '\\', 'x~y', ':r~1', 'a~1',
+         '"b\\"', '"b\\\\"', '"a\\', '"\\"x"', '"', '"a"b"']
 
 
 @st.composite
